@@ -243,6 +243,87 @@ def zombies(ctx: Ctx, scratch):
     ctx.notes["zombies"] = {"runs": n}
 
 
+def groups(ctx: Ctx, scratch):
+    """results read through a parallelized GROUP (task.parallelize(...).results): every value is a member's body value, a FAILED
+    member surfaces as the exception its body raised"""
+    n = 0
+    for kind in ("mem", "sqlite"):
+        for ser in (SERIALIZERS[:1] if not ctx.thorough else SERIALIZERS):
+            for plans in ([[["value", 1]], [["value", [2, "x"]]], [["value", {"k": None}]]],
+                          [[["value", 5]], [["raise", "ValueError", ["boom", 7]]]],
+                          [[["raise", "KeyError", ["k"]]]],
+                          [[["raise", "RuntimeError", []]], [["value", "late"]]]):
+                w = D.World(kind, scratch, serializer_cls=ser)
+                app = w.app
+                tasks_conc.ATTEMPTS.clear()
+                t = w.task(tasks_conc.value_by_attempt)
+                group = t.parallelize([(p,) for p in plans])
+                for _ in range(len(plans) + 1):
+                    for c in app.orchestrator.get_invocations_to_run(4, world.runner_ctx("r0")):
+                        try:
+                            c.run(world.runner_ctx("r0"))
+                        except Exception:  # noqa: BLE001
+                            pass
+                want_vals = [p[0][1] for p in plans if p[0][0] == "value"]
+                want_excs = [[p[0][1], list(p[0][2])] for p in plans if p[0][0] == "raise"]
+                got_vals, got_exc = [], None
+                try:
+                    for v in group.results:
+                        got_vals.append(v)
+                except BaseException as ex:  # noqa: BLE001
+                    got_exc = exc_sig(ex)
+                n += 1
+                ok_vals = all(v in want_vals for v in got_vals) and len(got_vals) <= len(want_vals)
+                ok_exc = (got_exc in want_excs) if want_excs else (got_exc is None and sorted(map(repr, got_vals)) == sorted(map(repr, want_vals)))
+                if not (ok_vals and ok_exc):
+                    ctx.violation("group-results:" + ("exception" if want_excs else "values"),
+                                  f"{kind}/{ser}: group of {len(plans)} members with body outcomes {plans}: iterating group.results gave values {got_vals!r} "
+                                  f"then {'raised ' + repr(got_exc) if got_exc else 'ended'}; expected the values {want_vals!r}"
+                                  + (f" and one of the exceptions {want_excs!r}" if want_excs else ""),
+                                  {"kind": "group", "backend": kind, "serializer": ser, "plans": plans, "observed": [got_vals, got_exc]})
+    ctx.count(n, n)
+    ctx.notes["groups"] = {"runs": n}
+
+
+def purge_between(ctx: Ctx, scratch):
+    """a SUCCESS published after ANOTHER process purged the stores must come with a readable result: the worker's local caches
+    are no proof that the shared store still holds an externalised value"""
+    n = 0
+    for ser in (SERIALIZERS[:1] if not ctx.thorough else SERIALIZERS):
+        w = D.World("sqlite", scratch, serializer_cls=ser, min_size_to_cache=8)
+        app = w.app
+        other = world.make_app("sqlite", scratch, app_id=app.app_id, serializer_cls=ser, min_size_to_cache=8)
+        big = {"rows": [["x" * 40, i] for i in range(6)]}
+        t = w.task(tasks_conc.value)
+        t_other = other.task(tasks_conc.value)
+        del t_other
+        seen = []
+        for round_ in range(2):
+            inv = t(big)
+            for c in app.orchestrator.get_invocations_to_run(1, world.runner_ctx("r0")):
+                try:
+                    c.run(world.runner_ctx("r0"))
+                except Exception:  # noqa: BLE001
+                    pass
+            handle = other.state_backend.get_invocation(inv.invocation_id)
+            st = handle.status.name
+            try:
+                got = ["value", handle.get_final_result()]
+            except BaseException as ex:  # noqa: BLE001
+                got = ["raised", exc_sig(ex)]
+            seen.append([st, got])
+            n += 1
+            if st != "SUCCESS" or got != ["value", big]:
+                ctx.violation("purge-between:result-unreadable",
+                              f"sqlite/{ser}: run #{round_ + 1} of a task returning the same big value "
+                              f"{'after another process purged the stores' if round_ else ''}: status {st}, another process reads {got!r}",
+                              {"kind": "purge-between", "serializer": ser, "observed": seen})
+            if round_ == 0:
+                other.purge()                      # another process wipes orchestrator, broker, state backend, client data store
+    ctx.count(n, n)
+    ctx.notes["purge_between"] = {"runs": n}
+
+
 def schedules(ctx: Ctx, scratch):
     total, per = 0, {}
     whats = [("value", {"k": [1, 2, 3], "s": "x" * 30}), ("exc", "ValueError", ["boom", 1])]
@@ -273,6 +354,8 @@ def main(ctx: Ctx) -> int:
     try:
         schedules(ctx, scratch)
         zombies(ctx, scratch)
+        groups(ctx, scratch)
+        purge_between(ctx, scratch)
         roundtrip(ctx, scratch)
     finally:
         world.rm_scratch(scratch)
@@ -287,7 +370,13 @@ def replay(ctx: Ctx, path: str) -> int:
     rp = json.load(open(path))["replay"]
     scratch = world.scratch_dir()
     try:
-        if rp["kind"] == "zombie":
+        if rp["kind"] in ("group", "purge-between"):
+            (groups if rp["kind"] == "group" else purge_between)(ctx, scratch)
+            for v in ctx.violations + ctx.known_hits:
+                print("REPRODUCED:", v["what"])
+            if not (ctx.violations or ctx.known_hits):
+                print("not reproduced")
+        elif rp["kind"] == "zombie":
             zombies(ctx, scratch)
             for v in ctx.violations + ctx.known_hits:
                 print("REPRODUCED:", v["what"])
